@@ -24,10 +24,14 @@ Definition rmappings tbl (M : mappings) : mappings :=
 
 (* The comparison is exact, order included: the property fixes the order of the result
    (A's entries in A's order, then the entries only B has, in B's order). *)
+Definition check_pair (A B : mappings) (r : res mappings) : bool :=
+  wf2 A && wf2 B                          (* the compared domain is the proved domain *)
+  && res_eqb mappings_eqb (merge A B) r.
+
 Definition check (c : case) : bool :=
   match c with
-  | CMerge A B r => res_eqb mappings_eqb (merge A B) r
+  | CMerge A B r => check_pair A B r
   | CMergeT tbl A B r =>
-      res_eqb mappings_eqb (merge (rmappings tbl A) (rmappings tbl B))
+      check_pair (rmappings tbl A) (rmappings tbl B)
         (match r with Ok m => Ok (rmappings tbl m) | Err => Err end)
   end.
